@@ -37,6 +37,9 @@ class GenError(Exception):
     """template/extraction mismatch -> the run is *undecided* (exit 2), never an alarm."""
 
 
+# marks the boundary between a function's signature and its body while rewrites are applied (a rewrite that spans the
+# boundary must reproduce the mark in its replacement)
+BODY_MARK = '/*@BODY@*/'
 RX = re.compile(r'/((?:[^/\\]|\\.)*)/')
 
 
@@ -395,7 +398,7 @@ def build_fn(block, orig, canary=False, mutant=None):
             raise GenError('mutant %s of %s: pattern /%s/ not found' % (mname, block.name, mrx))
     counts = info['rewrites']
     header, body = split_fn(text)
-    full = header + '\x00' + body
+    full = header + BODY_MARK + body
     for rule, rx, repl, cnt in block.subs:
         full, k = re.subn(rx, repl, full)
         if cnt >= 0 and k != cnt:
@@ -407,7 +410,9 @@ def build_fn(block, orig, canary=False, mutant=None):
         full, k = re.subn(mrx, mrepl, full, count=1)
         if k != 1:
             raise GenError('mutant %s of %s: pattern /%s/ not found' % (mname, block.name, mrx))
-    header, body = full.split('\x00', 1)
+    if full.count(BODY_MARK) != 1:
+        raise GenError('fn %s: a rewrite destroyed the signature/body boundary' % block.name)
+    header, body = full.split(BODY_MARK, 1)
     for rule, rx, seqcall in block.cb2loop:
         body = apply_cb2loop(body, rule, rx, seqcall, counts)
     if block.foreach:
